@@ -48,3 +48,16 @@ uint32_t ctgood_eq(const unsigned char *secret, const unsigned char *pub, size_t
 	}
 	return (uint32_t)((z | -z) >> 31) ^ 1;
 }
+
+/* early exit through a loop-carried register: the secret reaches the loop condition only along the back edge (no memory involved).
+ * The engine once reused a memoised result for the function although its own phis had changed in the previous pass, and missed it. */
+int ctbad_loop_carried(const unsigned char *secret, const unsigned char *pub, size_t len)
+{
+	size_t u;
+	int c = 0;
+	for (u = 0; u < len && c == 0; u ++) {
+		c = (int)secret[u] - (int)pub[u];
+		c = (c >> 8) | (int)((unsigned)-c >> 31);
+	}
+	return c;
+}
